@@ -89,6 +89,23 @@ def rule_b(ctx, out):
             out.ok({"rebuild_result": "deepcopy(previous_block) with .instructions replaced"})
         else:
             out.bad("rebuild:result-not-a-copy-of-input", "the rebuilt block is not a deep copy of the input block with only its instructions replaced", where(f))
+    _rebuild_flags(ctx, out)
+
+
+def _rebuild_flags(ctx, out):
+    REBUILD_ = REBUILD
+    # the split-instruction bookkeeping of the rebuild: a flag describing the *previous* sub-block is re-assigned for every sub-block
+    from ..core.idioms import stale_loop_flags
+    rb = ctx.func(REBUILD_)
+    bad = list(stale_loop_flags(ctx, rb))
+    for loop, v in bad:
+        out.bad(f"rebuild:stale-flag:{v}", f"`{v}` tells the rebuild whether the previous sub-block was replaced (it decides whether the shared split "
+                f"instruction is emitted again), but some path through the loop body does not re-assign it: a replacement of an earlier sub-block "
+                f"is mistaken for one of the previous sub-block", where(rb, loop))
+    if not bad:
+        out.ok({"rebuild": "loop-carried flags are re-assigned on every path of each iteration"})
+
+
 
 
 def rule_c(ctx, out):
@@ -192,7 +209,37 @@ def rule_d(ctx, out):
             out.bad(f"{g.name}:writes-other-object", "the file written is not the serialisation of the output document", where(g))
 
 
+FRESH_MODULES = ("gasol_asm", "sfs_generator.asm_contract", "sfs_generator.asm_json", "sfs_generator.parser_asm",
+                 "solution_generation.optimize_from_sub_blocks", "solution_generation.ids2asm")
+
+
+def rule_e(ctx, out, modules=FRESH_MODULES):
+    """A container that is handed out once per loop iteration (stored under the loop key / passed with the loop key) must be
+    created inside that iteration; otherwise fields or blocks of one contract section leak into the next."""
+    from ..core.idioms import loop_published_containers
+    n = 0
+    for f in ctx.p.functions.values():
+        if f.module.name not in modules:
+            continue
+        loops = [x for x in own_nodes(f.node) if isinstance(x, ast.For)]
+        n += len(loops)
+        hits = list(loop_published_containers(ctx, f))
+        seen = set()
+        for loop, pub, name, d in hits:
+            if (f.qual, name) in seen:
+                continue
+            seen.add((f.qual, name))
+            out.bad(f"per-iteration-container-not-fresh:{f.qual.split('.', 1)[-1]}:{name}", f"`{name}` is created once (`{short(d)}`) outside the loop over "
+                    f"`{norm(loop.target)}` but filled and handed out in every iteration (`{short(pub, 60)}`): each section also receives what earlier "
+                    f"iterations put in", where(f, pub))
+        if loops and not hits:
+            out.ok({"function": f.qual, "loops": len(loops)})
+    if n < (10 if modules is FRESH_MODULES else 3):
+        raise AnalysisError(f"only {n} for-loops scanned in {modules}")
+
+
 RULES = [
+    ("C09.e", "containers handed out per loop iteration are fresh", 5, rule_e),
     ("C09.a", "item field agreement (parser/serialiser)", 25, rule_a),
     ("C09.b", "items immutable; rebuild re-uses originals; who may construct", 9, rule_b),
     ("C09.c", "PUSH constants rendered canonically", 3, rule_c),
